@@ -83,7 +83,9 @@ func runFieldStreams(out *vOut, r *rand.Rand, n int) {
 		var atoks []string
 		na := r.Intn(4)
 		if r.Intn(5) == 0 {
-			args = append(args, &ast.BasicLit{Kind: token.STRING, Value: `"*"`})
+			// every spelling of the string "*": interpreted, raw, escaped
+			star := []string{`"*"`, "`*`", `"\x2a"`, `"*"`}[r.Intn(4)]
+			args = append(args, &ast.BasicLit{Kind: token.STRING, Value: star})
 			atoks = append(atoks, eq("*"))
 			if r.Intn(4) != 0 {
 				na = 0
